@@ -1,21 +1,25 @@
 """C02: exotic cells, level masks, per-level hashes, Merkle pruning invariance."""
 from ..gen import cells as G
+from ..translate import arith
 from .C01 import cmp_obs, spec_obs
 
 SPEC = dict(
     manifest=dict(
         category='proof',
-        text="Lean proves (Proofs/CellSpec.lean, 750 lines) that for every spec-valid tree with pruned branches of any mask 1..7, library cells, Merkle proofs/updates in any nesting, the model of the constructor succeeds and reports exactly the spec's level mask and per-level hash/depth at every level (loop invariant over calculate_hashes vs. level recursion of the spec); pruning invariance is proved for ALL Merkle depths (Proofs/Prune.lean, c02_prune_invariant_spec / c02_prune_invariant): if t' is t with any set of subtrees replaced by pruned branches of mask (mask s % 2^(d-1)) | 2^(d-1) carrying hashAt/depthAt s l for the significant l < d (d grows by one under every Merkle cell), then for every l < d hash, depth and the mask bits below l of t' are those of t (d = 1: the level-0 hash of every enclosing cell is unchanged), with no assumption on the hash function; validity of the pruned tree is DERIVED (Proofs/PruneWF.lean, c02_prune_valid): for a spec-valid t at Merkle depth d >= 1 whose level mask is below 2^(d-1) (d = 1: a level-0 tree) every pruning t' is spec-valid again (pruned cells have 16+272k <= 832 bits, mask 1..7, no refs; at every level t' is at most as deep as t, so the 1023 depth limit is kept), hence constructible, and the model-level statement c02_prune_invariant / c02_prune_level0 (Cell.info: get_hash/get_depth/level_mask) assumes spec-validity of t only; and it is tested through the library. Tie: correspondence library = model = Lean spec = independent Python spec on generated exotic trees, prunings and malformed cells.",
+        text="Lean proves (Proofs/CellSpec.lean, 750 lines) that for every spec-valid tree with pruned branches of any mask 1..7, library cells, Merkle proofs/updates in any nesting, the model of the constructor succeeds and reports exactly the spec's level mask and per-level hash/depth at every level (loop invariant over calculate_hashes vs. level recursion of the spec); pruning invariance is proved for ALL Merkle depths (Proofs/Prune.lean, c02_prune_invariant_spec / c02_prune_invariant): if t' is t with any set of subtrees replaced by pruned branches of mask (mask s % 2^(d-1)) | 2^(d-1) carrying hashAt/depthAt s l for the significant l < d (d grows by one under every Merkle cell), then for every l < d hash, depth and the mask bits below l of t' are those of t (d = 1: the level-0 hash of every enclosing cell is unchanged), with no assumption on the hash function; validity of the pruned tree is DERIVED (Proofs/PruneWF.lean, c02_prune_valid): for a spec-valid t at Merkle depth d >= 1 whose level mask is below 2^(d-1) (d = 1: a level-0 tree) every pruning t' is spec-valid again (pruned cells have 16+272k <= 832 bits, mask 1..7, no refs; at every level t' is at most as deep as t, so the 1023 depth limit is kept), hence constructible, and the model-level statement c02_prune_invariant / c02_prune_level0 (Cell.info: get_hash/get_depth/level_mask) assumes spec-validity of t only; and it is tested through the library. Tie: correspondence library = model = Lean spec = independent Python spec on generated exotic trees, prunings and malformed cells. The integer arithmetic the model rests on (descriptors, level-mask functions, depth limit, pruned offsets) is additionally REGENERATED from the Python source on every run and proved equal to the model/spec for all inputs (c0x_src_* theorems).",
         level_note='Trusted: Lean kernel, Spec/Cell.lean as the TON rule (cross-checked against an independent Python transcription on every run), Model/Cell.lean as a hand transcription of the code (sampled correspondence), the harness.',
-        technique='Lean 4 refinement proof (hand model) + differential correspondence with the library',
+        technique='Lean 4 refinement proof (hand model) + differential correspondence with the library + source-regenerated arithmetic lemmas',
     ),
+    translators=[('exotic.py LevelMask->Generated/LevelMask.lean', arith.regenerator('LevelMask')),
+                 ('cell.py d1/d2/pruned offsets->Generated/CellArith.lean', arith.regenerator('CellArith'))],
     design_ref='DESIGN.md §6 C02',
     rule='trees with pruned branches of all 7 masks, library cells, Merkle proofs/updates nested up to level 3, random pruning sets; '
          'each node compared library vs Lean model vs Lean spec vs Python spec; plus a malformed stream (wrong sizes/tags/ref counts) '
          'for model=code only; distinct = distinct (dag prefix, route); non-trivial = DAG contains an exotic cell',
     trusted_base=['Model/Cell.lean mirrors Cell.__init__/resolve_mask/calculate_hashes/get_hash/get_depth by hand',
                   'Spec/Cell.lean transcribes the TON level-mask / per-level hash rules (DataCell.cpp, tvm.pdf 3.1.6-3.1.7)',
-                  'SHA-256 abstract in theorems'],
+                  'SHA-256 abstract in theorems',
+                  'harness/translate/pyarith.py + arith.py (Python int arithmetic -> Lean) and lean/TonVerif/PyInt.lean (meaning of bit_length / bin().count) for the c02_src_* theorems'],
     assumptions=['hashlib.sha256 is SHA-256', 'correspondence is sampled'],
 )
 
@@ -131,23 +135,58 @@ def malformed(rng):
     return [leaf, mid, (G.ORD, '1', (1,)), (G.MPROOF, G.rand_bits(rng, 280), (2,))]
 
 
+def pruned_family(ctx, mask, tag):
+    """a pruned branch of this mask, alone and under ordinary / Merkle parents"""
+    rng = ctx.rng
+    n = G.popcount(mask)
+    hashes = [rng.randbytes(32) for _ in range(n)]
+    depths = [rng.randrange(0, 1000) for _ in range(n)]
+    pb = G.pruned_bits(mask, hashes, depths)
+    db = G.DagBuilder()
+    p = db.add(G.PRUNED, pb)
+    o = db.add(G.ORD, '101', (p,))
+    o2 = db.add(G.ORD, '', (o, p))
+    if db.ok(o2):
+        mp = db.add(G.MPROOF, G.mproof_bits(db.infos[o2]), (o2,))
+        mu = db.add(G.MUPDATE, G.mupdate_bits(db.infos[o2], db.infos[o]), (o2, o))
+        db.add(G.ORD, '1', (mp, mu))
+    check_dag(ctx, db.nodes, tag)
+
+
+def src_search(ctx):
+    """Search mode only: the points where a regenerated definition (Generated/LevelMask.lean, CellArith.lean) differs from
+    the function it is proved equal to, turned into exotic trees for the oracle.  True = a concrete failing input was found."""
+    found = arith.search_points(ctx, ['LevelMask', 'CellArith'])
+    if not found:
+        return False
+    n0 = len(ctx.failures)
+    masks = set()
+    for name in ('lmLevel', 'lmHashIndex', 'lmApply', 'lmIsSignificant'):
+        masks |= {pt['m'] for pt in found.get(name) or [] if 1 <= pt['m'] <= 7}
+    masks |= {pt['mask'] for pt in found.get('refsDescriptor') or [] if 1 <= pt['mask'] <= 7 and pt['r'] <= 4}
+    for name in ('prunedHashLo', 'prunedHashHi', 'prunedDepthOff', 'prunedDepthLo', 'prunedDepthHi'):
+        if found.get(name):
+            masks |= set(range(1, 8))
+    exotic_lens = {16 + 272 * k for k in (1, 2, 3)} | {264, 280, 552}
+    for pt in found.get('bitsDescriptor') or []:
+        if pt['b'] in exotic_lens:
+            masks |= {1, 3, 7}
+        elif pt['b'] <= 1023:
+            check_dag(ctx, [(G.ORD, G.rand_bits(ctx.rng, pt['b']), ())], f'src-d2-len{pt["b"]}', routes=('ctor',), boc=False)
+    if any(pt['exotic'] and pt['mask'] == 0 for pt in found.get('refsDescriptor') or []):
+        masks.add(1)        # the family contains Merkle cells (exotic, and of mask 0 above a level-1 branch)
+    for m in sorted(masks):
+        pruned_family(ctx, m, f'src-pruned-mask{m}')
+    return len(ctx.failures) > n0
+
+
 def run(ctx):
     rng = ctx.rng
+    if ctx.search and src_search(ctx):
+        return
     # every pruned mask, alone and under ordinary / Merkle parents
     for mask in range(1, 8):
-        n = G.popcount(mask)
-        hashes = [rng.randbytes(32) for _ in range(n)]
-        depths = [rng.randrange(0, 1000) for _ in range(n)]
-        pb = G.pruned_bits(mask, hashes, depths)
-        db = G.DagBuilder()
-        p = db.add(G.PRUNED, pb)
-        o = db.add(G.ORD, '101', (p,))
-        o2 = db.add(G.ORD, '', (o, p))
-        if db.ok(o2):
-            mp = db.add(G.MPROOF, G.mproof_bits(db.infos[o2]), (o2,))
-            mu = db.add(G.MUPDATE, G.mupdate_bits(db.infos[o2], db.infos[o]), (o2, o))
-            db.add(G.ORD, '1', (mp, mu))
-        check_dag(ctx, db.nodes, f'pruned-mask{mask}')
+        pruned_family(ctx, mask, f'pruned-mask{mask}')
     for t in range(ctx.n(250, 2500)):
         db = G.DagBuilder()
         G.gen_exotic_tree(rng, db, rng.choice([0, 0, 1, 2, 3]), rng.randrange(1, 14))
